@@ -230,3 +230,4 @@ def run(fb, rep, tier, cfg):
         rep.ok("R12g-i", "configuration `%s` does not compile api::ser / api::de" % cfg)
     r12h.r12j(fb, rep)
     r12h.r12k(fb, rep)
+    r12h.r12l(fb, rep)
